@@ -222,7 +222,9 @@ func (listForSender *txListForSender) removeTransactionsWithLowerOrEqualNonceRet
 	return evictedTxHashes
 }
 
-func (listForSender *txListForSender) removeTransactionsWithHigherOrEqualNonce(givenNonce uint64) {
+func (listForSender *txListForSender) removeTransactionsWithHigherOrEqualNonce(givenNonce uint64) [][]byte {
+	evictedTxHashes := make([][]byte, 0)
+
 	listForSender.mutex.Lock()
 	defer listForSender.mutex.Unlock()
 
@@ -238,5 +240,10 @@ func (listForSender *txListForSender) removeTransactionsWithHigherOrEqualNonce(g
 		_ = listForSender.items.Remove(element)
 		listForSender.onRemovedListElement(element)
 		element = prevElement
+
+		// Keep track of removed transactions
+		evictedTxHashes = append(evictedTxHashes, tx.TxHash)
 	}
+
+	return evictedTxHashes
 }
